@@ -6,6 +6,7 @@ import WireP.Props.C15
 import WireP.Props.C03
 import WireP.Lemmas.SolveLive
 import WireP.Lemmas.SolveExample
+import WireP.Lemmas.ImportableProofs
 /-! # C01 — successful generation yields a compilable package (aggregate, IR level)
 
 C01 itself is decided by compiling every generated package.  Its Lean part is the IR-level
@@ -210,5 +211,169 @@ example : ∃ ig, nameInjector 60 WireP.C14.exEnv WireP.C14.exParams WireP.C14.e
 
 example : sigErrors true true exCalls = [] := by decide
 example : sigErrors true false exCalls ≠ [] := by decide
+
+/-! ## internal packages: what a generated file may import
+
+Model: `WireV.importableFromC path frm` (wire.go: `importableFrom`; `WireV/Path.lean`) — may the package with
+import path `frm` import the package `path` under Go's rule for internal packages?  The last path element
+`internal` of `path` decides (`WireV.internalAt`); both paths are read without their vendor prefix
+(`WireV.unvendorC`, C16).  Proofs: `WireP/Lemmas/ImportableProofs.lean`. -/
+section Importable
+open WireP.PathProofs (NoVendorElem)
+open WireP.ImportableProofs (InternalElemAt)
+
+/-- `strings.HasSuffix` as modelled -/
+theorem isSuffixC_iff (s h : List Char) : isSuffixC s h = true ↔ ∃ t, h = t ++ s :=
+  WireP.ImportableProofs.isSuffixC_iff s h
+
+/-- at position `k` of `path` there is `/internal`, followed by the end of the path or by `/` -/
+theorem internalElemAt_def (path : List Char) (k : Nat) :
+    InternalElemAt path k ↔
+      ∃ suf, path.drop k = "/internal".toList ++ suf ∧ (suf = [] ∨ suf.head? = some '/') := Iff.rfl
+
+/-- no `internal` element ⇔ `/internal` followed by the end or by `/` occurs nowhere -/
+theorem internalAt_none_iff (path : List Char) :
+    internalAt path = none ↔
+      ¬ ∃ pre suf, path = pre ++ "/internal".toList ++ suf ∧ (suf = [] ∨ suf.head? = some '/') :=
+  WireP.ImportableProofs.internalAt_none_iff path
+
+/-- **`internalAt` finds the last `internal` element**: at `i - 1` the path goes on with `/internal`
+    followed by the end or by `/`, and at no later position does it -/
+theorem internalAt_last {path : List Char} {i : Nat} (h : internalAt path = some i) :
+    1 ≤ i ∧
+    (∃ suf, path.drop (i - 1) = "/internal".toList ++ suf ∧ (suf = [] ∨ suf.head? = some '/')) ∧
+    ∀ j, i - 1 < j →
+      ¬ ∃ suf, path.drop j = "/internal".toList ++ suf ∧ (suf = [] ∨ suf.head? = some '/') :=
+  WireP.ImportableProofs.internalAt_last h
+
+/-- … and that characterises it -/
+theorem internalAt_some_iff {path : List Char} {i : Nat} :
+    internalAt path = some i ↔
+      1 ≤ i ∧ InternalElemAt path (i - 1) ∧ ∀ j, i - 1 < j → ¬ InternalElemAt path j :=
+  WireP.ImportableProofs.internalAt_some_iff
+
+/-- `parent/internal` followed by `rest` (empty, or `/…` without a further `internal` element): the
+    element found is the one behind `parent` -/
+theorem internalAt_shape (parent : List Char) {rest : List Char}
+    (hr : rest = [] ∨ rest.head? = some '/') (hlast : internalAt rest = none) :
+    internalAt (parent ++ "/internal".toList ++ rest) = some (parent.length + 1) :=
+  WireP.ImportableProofs.internalAt_shape parent hr hlast
+
+/-- conversely every path with an `internal` element has that shape, with `parent = path.take (i - 1)` -/
+theorem internalAt_some_shape {path : List Char} {i : Nat} (h : internalAt path = some i) :
+    ∃ rest, path = path.take (i - 1) ++ "/internal".toList ++ rest ∧
+      (path.take (i - 1)).length + 1 = i ∧
+      (rest = [] ∨ rest.head? = some '/') ∧ internalAt rest = none :=
+  WireP.ImportableProofs.internalAt_some_shape h
+
+/-- only the paths without their vendor prefix matter -/
+theorem importableFromC_unvendor (path frm : List Char) :
+    importableFromC path frm = importableFromC (unvendorC path) (unvendorC frm) :=
+  WireP.ImportableProofs.importableFromC_unvendor path frm
+
+/-- a vendored copy is treated like the package itself, whoever vendors it -/
+theorem importable_vendored {path frm : List Char} (hp : NoVendorElem path) (hf : NoVendorElem frm)
+    (q q' : List Char) :
+    importableFromC (q ++ vendorElem ++ path) (q' ++ vendorElem ++ frm) = importableFromC path frm ∧
+    importableFromC ("vendor/".toList ++ path) frm = importableFromC path frm ∧
+    importableFromC path (q' ++ vendorElem ++ frm) = importableFromC path frm :=
+  WireP.ImportableProofs.importable_vendored hp hf q q'
+
+/-- **A path without `internal` element may be imported from everywhere.** -/
+theorem importable_no_internal {path : List Char} (hp : NoVendorElem path)
+    (h : internalAt path = none) (frm : List Char) : importableFromC path frm = true :=
+  WireP.ImportableProofs.importable_no_internal hp h frm
+
+/-- the same for arbitrary paths (vendor prefix stripped first) -/
+theorem importable_no_internal_gen {path : List Char} (h : internalAt (unvendorC path) = none)
+    (frm : List Char) : importableFromC path frm = true :=
+  WireP.ImportableProofs.importable_no_internal_gen h frm
+
+/-- **Go's rule.**  `parent/internal…` (the last `internal` element of the path) may be imported from
+    `parent` and from below `parent`, and from nowhere else. -/
+theorem importable_iff {parent rest frm : List Char}
+    (hp : NoVendorElem (parent ++ "/internal".toList ++ rest)) (hf : NoVendorElem frm)
+    (hr : rest = [] ∨ rest.head? = some '/') (hlast : internalAt rest = none) :
+    importableFromC (parent ++ "/internal".toList ++ rest) frm = true ↔
+      frm = parent ∨ ∃ x, frm = parent ++ '/' :: x :=
+  WireP.ImportableProofs.importable_iff hp hf hr hlast
+
+theorem importable_inside {parent rest frm : List Char}
+    (hp : NoVendorElem (parent ++ "/internal".toList ++ rest)) (hf : NoVendorElem frm)
+    (hr : rest = [] ∨ rest.head? = some '/') (hlast : internalAt rest = none)
+    (hfrm : frm = parent ∨ ∃ x, frm = parent ++ '/' :: x) :
+    importableFromC (parent ++ "/internal".toList ++ rest) frm = true :=
+  WireP.ImportableProofs.importable_inside hp hf hr hlast hfrm
+
+/-- a package that is neither `parent` nor below it (`parent/` is not a prefix of its path; a prefix of
+    the parent's *name* is not enough) may not import -/
+theorem importable_outside {parent rest frm : List Char}
+    (hp : NoVendorElem (parent ++ "/internal".toList ++ rest)) (hf : NoVendorElem frm)
+    (hr : rest = [] ∨ rest.head? = some '/') (hlast : internalAt rest = none)
+    (hne : frm ≠ parent) (hpre : isPrefixC (parent ++ ['/']) frm = false) :
+    importableFromC (parent ++ "/internal".toList ++ rest) frm = false :=
+  WireP.ImportableProofs.importable_outside hp hf hr hlast hne hpre
+
+/-- the rule with the position that `internalAt` computes instead of the shape -/
+theorem importable_iff_at {path frm : List Char} {i : Nat} (hp : NoVendorElem path)
+    (hf : NoVendorElem frm) (hi : internalAt path = some i) :
+    importableFromC path frm = true ↔
+      frm = path.take (i - 1) ∨ ∃ x, frm = path.take (i - 1) ++ '/' :: x :=
+  WireP.ImportableProofs.importable_iff_at hp hf hi
+
+/-- … and for arbitrary paths -/
+theorem importable_some_gen {path frm : List Char} {i : Nat}
+    (h : internalAt (unvendorC path) = some i) :
+    importableFromC path frm = true ↔
+      unvendorC frm = (unvendorC path).take (i - 1) ∨
+      ∃ x, unvendorC frm = (unvendorC path).take (i - 1) ++ '/' :: x :=
+  WireP.ImportableProofs.importable_some_gen h
+
+/-- a package of the tree may import `parent/internal/x`: `parent` itself and `parent/sub` -/
+theorem importable_self_tree {parent : List Char}
+    (hp : NoVendorElem (parent ++ "/internal/x".toList)) (hpar : NoVendorElem parent)
+    (hsub : NoVendorElem (parent ++ "/sub".toList)) :
+    importableFromC (parent ++ "/internal/x".toList) (parent ++ "/sub".toList) = true ∧
+    importableFromC (parent ++ "/internal/x".toList) parent = true :=
+  WireP.ImportableProofs.importable_self_tree hp hpar hsub
+
+/-! non-vacuity and the rule on concrete paths (`…_lit rfl rfl (by decide)`: `decide` on the character
+lists of the literals, see `WireP.PathProofs`) -/
+open WireP.PathProofs WireP.ImportableProofs in
+section
+example : importableFrom "a/lib/internal/impl" "a/lib/sub" = true := importableFrom_lit rfl rfl (by decide)
+example : importableFrom "a/lib/internal/impl" "a/lib" = true := importableFrom_lit rfl rfl (by decide)
+example : importableFrom "a/lib/internal/impl" "a/app" = false := importableFrom_lit rfl rfl (by decide)
+/-- a prefix of the parent's *name* is not enough -/
+example : importableFrom "a/lib/internal/impl" "a/libx" = false := importableFrom_lit rfl rfl (by decide)
+example : importableFrom "a/lib/internal" "a/lib/sub" = true := importableFrom_lit rfl rfl (by decide)
+example : importableFrom "a/lib/internal" "a" = false := importableFrom_lit rfl rfl (by decide)
+/-- the last `internal` element counts -/
+example : importableFrom "a/internal/b/internal/c" "a/internal/b/d" = true :=
+  importableFrom_lit rfl rfl (by decide)
+example : importableFrom "a/internal/b/internal/c" "a/x" = false := importableFrom_lit rfl rfl (by decide)
+/-- an element that merely ends in `internal` is no `internal` element -/
+example : importableFrom "a/xinternal/c" "z" = true := importableFrom_lit rfl rfl (by decide)
+example : importableFrom "a/internalx/c" "z" = true := importableFrom_lit rfl rfl (by decide)
+/-- a leading `internal` is not treated specially (as in the Go code) -/
+example : importableFrom "internal/c" "z" = true := importableFrom_lit rfl rfl (by decide)
+/-- vendor prefixes are stripped on both sides -/
+example : importableFrom "vendor/a/internal/c" "a/d" = true := importableFrom_lit rfl rfl (by decide)
+example : importableFrom "q/vendor/a/internal/c" "r/vendor/a/d" = true := importableFrom_lit rfl rfl (by decide)
+example : importableFrom "q/vendor/a/internal/c" "q/d" = false := importableFrom_lit rfl rfl (by decide)
+example : internalAt "a/lib/internal/impl".toList = some 6 := internalAt_lit rfl (by decide)
+example : internalAt "a/internal/b/internal/c".toList = some 13 := internalAt_lit rfl (by decide)
+example : internalAt "a/internal/b/internal".toList = some 13 := internalAt_lit rfl (by decide)
+example : internalAt "a/xinternal/c".toList = none := internalAt_lit rfl (by decide)
+/-- hypotheses of `importable_iff` / `importable_self_tree` on `a/lib` + `/internal` + `/impl` -/
+example : NoVendorElem ("a/lib".toList ++ "/internal".toList ++ "/impl".toList) ∧
+    ("/impl".toList = [] ∨ "/impl".toList.head? = some '/') ∧ internalAt "/impl".toList = none ∧
+    NoVendorElem "a/lib/sub".toList ∧ NoVendorElem "a/app".toList ∧ "a/app".toList ≠ "a/lib".toList ∧
+    isPrefixC ("a/lib".toList ++ ['/']) "a/app".toList = false := by decide
+example : NoVendorElem ("a/lib".toList ++ "/internal/x".toList) ∧ NoVendorElem "a/lib".toList ∧
+    NoVendorElem ("a/lib".toList ++ "/sub".toList) := by decide
+end
+
+end Importable
 
 end WireP.C01
